@@ -5,6 +5,15 @@ For every enumerated program (every ordered sequence of connect clauses over ins
 connectors) all flat variables are z3 reals and z3 proves
     And(flat equations)  <=>  And(reference connection-set equations)
 with two unsat queries.  The oracle (vk/ref/connect_ref.py) is union-find over the connect graph.
+
+Families (see main()): the scalar graphs above; the same graphs under naming schemes in which one
+flat name is a string prefix / suffix of another (ports p/p2, top connector inl next to component
+inlet, members f/f2); self-connections; array-valued connector members; arrays of components and
+of connectors connected element-wise (each scalar graph lifted to N parallel copies in several
+clause orders, shifted pairings, whole-array clauses, free enumeration over array elements, 2-D);
+connect clauses inside component classes (a connector that is outside for the inner clause and
+inside for the outer one), also with arrays; other clause forms (for-loops, slices, parameter
+subscripts, whole-array mixed with element clauses).
 """
 import itertools
 import sys
@@ -21,9 +30,12 @@ from vk.smt.ast2z3 import Ref
 PROP = "C09"
 
 
-def program(k, m, comps, tops, clauses):
+def program(k, m, comps, tops, clauses, members=None):
     pot = [f"v{i}" for i in range(1, k + 1)]
     flo = [f"i{i}" for i in range(1, m + 1)]
+    if members:
+        pot, flo = list(members[0]), list(members[1])
+        assert (len(pot), len(flo)) == (k, m)
     txt = "connector Pin\n" + "".join(f"  Real {p};\n" for p in pot) + "".join(f"  flow Real {f};\n" for f in flo) + "end Pin;\n"
     ports = sorted({c.split(".")[1] for c in comps})
     txt += "model Comp\n" + "".join(f"  Pin {p};\n" for p in ports) + "end Comp;\n"
@@ -33,9 +45,9 @@ def program(k, m, comps, tops, clauses):
     return txt, pot, flo
 
 
-def check(col, k, m, comps, tops, clauses):
-    text, pot, flo = program(k, m, comps, tops, clauses)
-    case = f"k{k}m{m}:" + ";".join(f"{a}~{b}" for a, b in clauses)
+def check(col, k, m, comps, tops, clauses, members=None, scheme=""):
+    text, pot, flo = program(k, m, comps, tops, clauses, members)
+    case = (f"names[{scheme}]:" if scheme else "") + f"k{k}m{m}:" + ("" if not members else "(" + ",".join(pot) + "|" + ",".join(flo) + "):") + ";".join(f"{a}~{b}" for a, b in clauses)
     try:
         flat = pipeline.flat_reference(text, "M")
     except Exception as e:
@@ -80,26 +92,313 @@ def check(col, k, m, comps, tops, clauses):
     col.bump("equations", len(impl))
 
 
+# ---- general family member: model description dict (see vk/ref/connect_ref.py) ---------------
+PARTIAL_ARRAY_CASE = "array-partial:unconnected-element-flow-not-zero"
+
+
+def _dim(d):
+    return "[" + ",".join(map(str, d)) + "]" if d else ""
+
+
+def model_id(model, extra):
+    """Stable, compact identifier of a general family member."""
+    pins = "k%dm%d" % (len(model["pot"]), len(model["flo"]))
+    if any(d for _, d in model["pot"] + model["flo"]) or extra.get("members_named"):
+        pins = ",".join(m + _dim(d) for m, d in model["pot"]) + "|" + ",".join(m + _dim(d) for m, d in model["flo"])
+    parts = [pins]
+    for cn, cls in model["classes"].items():
+        arrays = [(n, d) for n, _, d in cls.get("subs", []) if d] + [(n, d) for n, d in cls.get("pins", []) if d]
+        decl = ",".join(n + _dim(d) for n, d in arrays)
+        cl = ";".join(f"{a}~{b}" for a, b in cls.get("clauses", []))
+        if cn == model["top"]:
+            parts.append((decl + ":" if decl else "") + (extra.get("form", "") + ":" if extra.get("form") else "") + cl)
+        elif cl or decl:
+            parts.append(cn + "{" + (decl + ":" if decl else "") + cl + "}")
+    return ":".join(parts)
+
+
+def _has_connect(eq):
+    if isinstance(eq, ast.ConnectClause):
+        return True
+    if isinstance(eq, ast.ForEquation):
+        return any(_has_connect(e) for e in eq.equations)
+    if isinstance(eq, ast.IfEquation):
+        return any(_has_connect(e) for blk in eq.blocks for e in blk)
+    return False
+
+
+def check_general(col, fam, model, extra=None):
+    extra = extra or {}
+    top = model["top"]
+    text = connect_ref.render(model, extra.get("decls", ""), extra.get("raw"))
+    # the few hand-listed clause forms report under one case id per form; everything else per program
+    case = fam + ":" + (extra["form"] if fam == "forms" else model_id(model, extra))
+    try:
+        flat = pipeline.flat_reference(text, top)
+    except Exception as e:
+        col.violation(case + ":raises:" + type(e).__name__, f"flatten raises {type(e).__name__}: {str(e)[:100]}", {"model_text": text})
+        return
+    fc = flat.classes[top]
+    for eq in fc.equations:
+        if _has_connect(eq):
+            col.violation(case + ":unexpanded", "a connect clause survived flattening", {"model_text": text})
+            return
+    ref = Ref(flat, top)
+    # exactly the connector members (with the concatenated dimensions) must be flat variables
+    want = dict(connect_ref.expected_symbols(model))
+    want.update(extra.get("symbols", {}))
+    have = {n: tuple(ref.dims[n]) for n in fc.symbols}
+    if want != have:
+        diff = sorted(set(want.items()) ^ set(have.items()))
+        col.violation(case + ":variables", f"flat variables differ from the declared connector members: {diff[:6]}", {"model_text": text})
+        return
+    impl = []
+    for eq in fc.equations:
+        impl += [r == 0 for r in ref.residual(eq)]
+    spec = connect_ref.general_reference_equations(model, z3.Real)
+    T = z3.BoolVal(True)
+    I, S = z3.And(impl) if impl else T, z3.And(spec) if spec else T
+    for tag, q in (("impl-not-spec", [I, z3.Not(S)]), ("spec-not-impl", [S, z3.Not(I)])):
+        r, mod = equiv.check(col, q, 10000)
+        if r == "sat":
+            pt = equiv.point_from_model(mod, impl + spec)
+            iv = [bool(equiv.z3eval(e, pipeline._Default(pt))) for e in impl]
+            sv = [bool(equiv.z3eval(e, pipeline._Default(pt))) for e in spec]
+            if all(iv) != all(sv):
+                vcase = f"{case}:{tag}" if fam != "forms" else f"{case}:different-solutions"
+                what = "flattened connection equations and Modelica connection-set semantics have different solutions"
+                if fam == "forms":
+                    what += " (first seen: " + model_id(model, extra) + ")"
+                if tag == "impl-not-spec":
+                    # solver-decided diagnosis: is the ONLY difference the missing `flow = 0` of never-connected
+                    # elements of an array of which another element is connected?  (impl /\ Z <=> spec)
+                    rest = connect_ref.partially_connected_array_rest(model)
+                    if rest:
+                        Z = connect_ref.general_reference_equations(model, z3.Real, only_zero_for=rest)
+                        r1, _ = equiv.check(col, [I, z3.And(Z), z3.Not(S)], 10000)
+                        r2, _ = equiv.check(col, [S, z3.Not(z3.And(I, *Z))], 10000)
+                        if r1 == "unsat" and r2 == "unsat":
+                            vcase = PARTIAL_ARRAY_CASE
+                            what = ("an element of an array of connectors that appears in no connect clause gets no `flow = 0` equation when another element "
+                                    "of the same array is connected (first seen: " + case + ")")
+                            col.bump("programs_differing_only_by_partial_array_default")
+                col.violation(vcase, what, {"model_text": text, "point": pt, "flat_equations_hold": iv, "reference_equations_hold": sv})
+            else:
+                col.note_inconclusive(f"{case}:{tag} sat did not replay")
+        elif r == "unknown":
+            col.note_inconclusive(f"{case}:{tag} unknown")
+    col.bump("programs")
+    col.bump("programs_" + fam.split("[")[0])
+    col.bump("equations", len(impl))
+
+
 def work(chunk):
     col = Collector()
     for args in chunk:
         try:
-            check(col, *args)
+            if args[0] == "G":
+                check_general(col, *args[1:])
+            else:
+                check(col, *args)
         except EncodingGap as g:
             col.append("encoding_gaps", f"{args[-1]}: {g}")
+            col.harness_error(f"encoding gap on {str(args)[:300]}: {g}")
         except Exception:
-            col.harness_error(f"{args}: " + traceback.format_exc()[-1200:])
+            col.harness_error(f"{str(args)[:600]}: " + traceback.format_exc()[-1200:])
     if chunk:
-        k, m, comps, tops, clauses = chunk[0]
-        col.sample({"k": k, "m": m, "clauses": clauses, "text": program(k, m, comps, tops, clauses)[0]}, 1)
+        a = chunk[0]
+        if a[0] == "G":
+            ex = a[3] if len(a) > 3 and a[3] else {}
+            col.sample({"family": a[1], "text": connect_ref.render(a[2], ex.get("decls", ""), ex.get("raw"))}, 1)
+        else:
+            col.sample({"k": a[0], "m": a[1], "clauses": a[4], "text": program(*a[:6])[0]}, 1)
     return col
 
 
-def sequences(conns, maxlen):
-    pairs = [(a, b) for a in conns for b in conns if a != b]
-    for n in range(0, maxlen + 1):
+def sequences(conns, maxlen, ordered=True, selfpairs=False, minlen=0):
+    pairs = [(a, b) for i, a in enumerate(conns) for j, b in enumerate(conns)
+             if (a != b or selfpairs) and (ordered or i <= j)]
+    for n in range(minlen, maxlen + 1):
         for seq in itertools.product(pairs, repeat=n):
             yield list(seq)
+
+
+# ---- builders of general family members ---------------------------------------------------------
+def pin(k=1, m=1, vec=()):
+    """Connector members; names in `vec` are arrays of 2."""
+    pot = [(f"v{i}" if k > 1 else "v", (2,) if (f"v{i}" if k > 1 else "v") in vec else ()) for i in range(1, k + 1)]
+    flo = [(f"i{i}" if m > 1 else "i", (2,) if (f"i{i}" if m > 1 else "i") in vec else ()) for i in range(1, m + 1)]
+    return {"pot": pot, "flo": flo}
+
+
+def flat_model(pn, subs, pins, clauses, classes=None):
+    """Top class M with components `subs` [(name, class, dims)] and top connectors `pins` [(name, dims)]."""
+    cl = {"Comp": {"pins": [("p", ())]}}
+    cl.update(classes or {})
+    cl["M"] = {"subs": subs, "pins": pins, "clauses": clauses}
+    return dict(pn, classes=cl, top="M")
+
+
+LIFT_BASE = ["a.p", "b.p", "P", "Q"]
+
+
+def lifted(pn, base_clauses, n, form):
+    """The scalar graph base_clauses over {a.p, b.p, P, Q} as N parallel copies: a, b become arrays of N components
+    and P, Q arrays of N connectors (form 'scalartops': P, Q stay scalar and join all copies).
+    form: kmajor (copy by copy), cmajor (clause by clause), krev (copies in descending order), shift (right-hand
+    side paired with the next copy, cyclically), whole (one clause per base clause between the whole arrays)."""
+    tops_arr = form != "scalartops"
+
+    def el(c, k):
+        if "." in c:
+            return c.replace(".", f"[{k}].")
+        return f"{c}[{k}]" if tops_arr else c
+
+    ks = list(range(1, n + 1))
+    if form == "whole":
+        clauses = list(base_clauses)
+    elif form == "cmajor":
+        clauses = [(el(a, k), el(b, k)) for a, b in base_clauses for k in ks]
+    elif form == "krev":
+        clauses = [(el(a, k), el(b, k)) for k in reversed(ks) for a, b in base_clauses]
+    elif form == "shift":
+        clauses = [(el(a, k), el(b, k % n + 1)) for k in ks for a, b in base_clauses]
+    else:
+        clauses = [(el(a, k), el(b, k)) for k in ks for a, b in base_clauses]
+    td = (n,) if tops_arr else ()
+    return flat_model(pn, [("a", "Comp", (n,)), ("b", "Comp", (n,))], [("P", td), ("Q", td)], clauses)
+
+
+def hier_model(pn, inner, outer, comp_dims=(), pinarr=False):
+    """Comp has connectors p, n (p an array of 2 if pinarr, plus r) and a sub-component s with connector q;
+    `inner` are Comp's own connect clauses, `outer` the clauses of M over components a (dims comp_dims), b and P."""
+    cpins = [("p", (2,)), ("r", ())] if pinarr else [("p", ()), ("n", ())]
+    classes = {"Sub": {"pins": [("q", ())]},
+               "Comp": {"pins": cpins, "subs": [("s", "Sub", ())], "clauses": inner}}
+    return flat_model(pn, [("a", "Comp", comp_dims), ("b", "Comp", ())], [("P", ())], outer, classes)
+
+
+NAME_SCHEMES = {
+    # scheme: (components, ports, top connectors) - which flat names are prefixes/suffixes of which
+    "port-prefix": (["a", "b", "c"], ["p", "p2"], ["P", "Q"]),            # a.p      < a.p2
+    "port-prefix-rev": (["a", "b", "c"], ["p2", "p"], ["P", "Q"]),        # declared in the other order
+    "top-in-comp": (["inlet", "inletb", "b"], ["p", "n"], ["inl", "b_"]),  # inl      < inlet.p, inlet < inletb, b < b_
+    "top-prefix": (["a", "b", "c"], ["p", "n"], ["P", "P2"]),              # P        < P2
+    "suffix": (["a", "ba", "cba"], ["p", "qp"], ["P", "QP"]),              # suffixes instead of prefixes
+    "underscore": (["a", "b", "c"], ["p", "n"], ["a_p", "a_n"]),           # a_p next to a.p
+    "all": (["u1", "u12", "x"], ["p", "p2"], ["u", "u1_"]),                # everything at once
+}
+MEMBER_SCHEMES = [(["f"], ["f2"]), (["f2"], ["f"]), (["v", "v2"], ["i", "i2"]), (["e"], ["e_flow", "e_flow2"])]
+
+
+def named_programs(thorough):
+    out = []
+    for scheme, (comps, ports, tops) in NAME_SCHEMES.items():
+        c8 = [f"{c}.{p}" for c in comps for p in ports]
+        c5 = [f"{comps[0]}.{ports[0]}", f"{comps[0]}.{ports[1]}", f"{comps[1]}.{ports[0]}"]
+        for seq in sequences(c8 + tops, 1):
+            out.append((1, 1, c8, tops, seq, None, scheme))
+        # components are declared from the connector list, so keep all of them declared and enumerate over five
+        if thorough:
+            for seq in sequences(c8[:4] + tops, 2, minlen=2):
+                out.append((1, 1, c8, tops, seq, None, scheme))
+        else:
+            for seq in sequences(c5 + tops, 2, ordered=False, minlen=2):
+                out.append((1, 1, c8, tops, seq, None, scheme))
+    c6, tops = ["a.p", "a.n", "b.p", "b.n", "c.p", "c.n"], ["P", "Q"]
+    for pot, flo in MEMBER_SCHEMES:
+        for seq in sequences(c6 + tops, 1):
+            out.append((len(pot), len(flo), c6, tops, seq, (pot, flo), "members"))
+        for seq in sequences(c6[:3] + tops, 2, ordered=thorough, minlen=2):
+            out.append((len(pot), len(flo), c6, tops, seq, (pot, flo), "members"))
+    return out
+
+
+def form_programs():
+    """Other spellings of connect clauses; the oracle always sees the scalar clauses they stand for."""
+    out = []
+    st = lambda cl, pins=(("s", (2,)), ("t", (2,)), ("u", ())): flat_model(pin(), [], list(pins), cl)
+    # whole-array clauses mixed with clauses on single elements of the same arrays
+    for cl in ([("s", "t"), ("s[1]", "u")], [("s[1]", "u"), ("s", "t")], [("s", "t"), ("t[2]", "u")], [("s", "t"), ("s[1]", "t[2]")]):
+        out.append(("G", "forms", st(cl), {"form": "whole+elem"}))
+    for cl in ([("s", "t"), ("s[1]", "t[1]"), ("s[2]", "t[2]")], [("s[2]", "t[2]"), ("s", "t")]):
+        out.append(("G", "forms", st(cl), {"form": "whole+same-elem"}))
+    # connect clauses in a for-equation
+    loop = "  for i in 1:2 loop\n    connect({}, {});\n  end for;\n"
+    out.append(("G", "forms", st([("s[1]", "t[1]"), ("s[2]", "t[2]")]), {"raw": loop.format("s[i]", "t[i]"), "form": "for"}))
+    m = flat_model(pin(), [("a", "Comp", (2,))], [("t", (2,))], [("a[1].p", "t[1]"), ("a[2].p", "t[2]")])
+    out.append(("G", "forms", m, {"raw": loop.format("a[i].p", "t[i]"), "form": "for"}))
+    out.append(("G", "forms", st([("s[1]", "u"), ("s[2]", "u")]), {"raw": loop.format("s[i]", "u"), "form": "for"}))
+    # slices and parameter-valued subscripts
+    s3 = (("s", (3,)), ("t", (3,)), ("u", ()))
+    out.append(("G", "forms", st([("s[1]", "t[2]"), ("s[2]", "t[3]")], s3), {"raw": "  connect(s[1:2], t[2:3]);\n", "form": "slice"}))
+    out.append(("G", "forms", st([("s[2]", "u")]), {"raw": "  connect(s[k], u);\n", "form": "parameter-subscript",
+                                                    "decls": "  parameter Integer k = 2;\n", "symbols": {"k": ()}}))
+    return out
+
+
+def general_programs(thorough):
+    out = []
+    G = lambda fam, model: out.append(("G", fam, model, None))
+    p11 = pin()
+    # array-valued connector members
+    for seq in sequences(LIFT_BASE, 3 if thorough else 2):
+        G("vecmem", flat_model(pin(vec=("v", "i")), [("a", "Comp", ()), ("b", "Comp", ())], [("P", ()), ("Q", ())], seq))
+    if thorough:
+        for seq in sequences(LIFT_BASE, 2):
+            G("vecmem", flat_model(pin(2, 2, vec=("v2", "i1")), [("a", "Comp", ()), ("b", "Comp", ())], [("P", ()), ("Q", ())], seq))
+    # scalar graphs lifted to N element-wise connected copies
+    for seq in sequences(LIFT_BASE, 3 if thorough else 2, minlen=1):
+        for form in (("kmajor", "cmajor", "krev", "shift", "whole", "scalartops") if thorough else ("kmajor", "cmajor", "shift", "whole", "scalartops")):
+            G(f"lift[{form},N=2]", lifted(p11, seq, 2, form))
+    for seq in sequences(LIFT_BASE, 2 if thorough else 1, minlen=1):
+        G("lift[kmajor,N=1]", lifted(p11, seq, 1, "kmajor"))
+        for form in ("cmajor", "shift"):
+            G(f"lift[{form},N=3]", lifted(p11, seq, 3, form))
+        G("lift[kmajor,N=2]", lifted(pin(2, 2), seq, 2, "kmajor"))
+        G("lift[kmajor,N=2]", lifted(pin(vec=("i",)), seq, 2, "kmajor"))
+    if thorough:
+        for seq in sequences(LIFT_BASE, 2, minlen=2):
+            for form in ("kmajor", "cmajor", "shift", "whole"):
+                G(f"lift[{form},N=3]", lifted(p11, seq, 3, form))
+    # free enumeration over the elements of arrays (most members leave part of an array unconnected)
+    free = lambda seq, m=False: flat_model(p11, [("n", "Comp", (2,)), ("x", "Comp", ())] + ([("m", "Comp", (2,))] if m else []), [("t", (2,))], seq)
+    for seq in sequences(["n[1].p", "n[2].p", "t[1]", "t[2]", "x.p"], 2, minlen=1):
+        G("arr-free", free(seq))
+    if thorough:
+        six = ["n[1].p", "n[2].p", "m[1].p", "m[2].p", "t[1]", "t[2]"]
+        for seq in sequences(six, 2, minlen=1):
+            G("arr-free", free(seq, True))
+        for seq in sequences(six, 3, ordered=False, minlen=3):
+            G("arr-free", free(seq, True))
+    for seq in sequences(["s[1,1]", "s[1,2]", "s[2,1]", "s[2,2]", "u"], 2 if thorough else 1, minlen=1):
+        G("arr-2d", flat_model(p11, [], [("s", (2, 2)), ("u", ())], seq))
+    for seq in sequences(["s[1,1]", "s[1,2]", "s[2,1]", "s[2,2]"], 4, ordered=False, minlen=4):
+        if len({c for cl in seq for c in cl}) == 4 and (thorough or seq == sorted(seq)):
+            G("arr-2d", flat_model(p11, [], [("s", (2, 2)), ("u", ())], seq))
+    # connect clauses inside component classes: a.p is outside for Comp's clause and inside for M's
+    inner_c, outer_c = ["p", "n", "s.q"], ["a.p", "a.n", "b.p", "P"]
+    if thorough:
+        for inner in sequences(inner_c, 2):
+            for outer in sequences(outer_c, 2):
+                if inner:
+                    G("hier", hier_model(p11, inner, outer))
+    else:
+        for inner in sequences(inner_c, 1, minlen=1):
+            for outer in list(sequences(outer_c, 1)) + list(sequences(outer_c, 2, ordered=False, minlen=2)):
+                G("hier", hier_model(p11, inner, outer))
+        for inner in sequences(inner_c, 2, ordered=False, minlen=2):
+            for outer in sequences(outer_c, 1):
+                G("hier", hier_model(p11, inner, outer))
+    for inner in sequences(inner_c, 1, minlen=1):
+        for outer in sequences(["a[1].p", "a[2].p", "a[1].n", "P"], 2 if thorough else 1):
+            G("hier-arr", hier_model(p11, inner, outer, comp_dims=(2,)))
+        G("hier-arr", hier_model(p11, inner, [("a[1].p", "P"), ("a[2].p", "P"), ("a[1].n", "a[2].n")], comp_dims=(2,)))
+        G("hier-arr", hier_model(p11, inner, [("a.p", "a.n")], comp_dims=(2,)))
+    for inner in sequences(["p[1]", "p[2]", "r"], 2 if thorough else 1, minlen=1):
+        for outer in sequences(["a.p[1]", "a.p[2]", "a.r", "P"], 1):
+            G("hier-pinarr", hier_model(p11, inner, outer, pinarr=True))
+    return out + form_programs()
 
 
 def main():
@@ -126,6 +425,19 @@ def main():
         comps6 = ["a.p", "a.n", "b.p", "b.n", "c.p", "c.n"]
         for seq in sequences(comps6 + tops, 2):
             progs.append((2, 1, comps6, tops, seq))
+    thorough = args.tier != "quick"
+    n_scalar = len(progs)
+    # self-connections connect(c, c) mixed into the scalar graphs
+    for seq in sequences(comps4 + tops, 3 if thorough else 2, selfpairs=True, minlen=1):
+        if any(a == b for a, b in seq):
+            progs.append((1, 1, comps4, tops, seq))
+    n_self = len(progs) - n_scalar
+    named = named_programs(thorough)
+    general = general_programs(thorough)
+    progs += named + general
+    rep.coverage.update({"programs_scalar_graphs": n_scalar, "programs_self_connections": n_self, "programs_naming_schemes": len(named)})
+    # interleave so that every chunk has a mix of cheap and expensive members
+    progs = [p for i in range(args.jobs * 8) for p in progs[i::args.jobs * 8]]
     n = max(1, len(progs) // (args.jobs * 8))
     chunks = [progs[i:i + n] for i in range(0, len(progs), n)]
     for col in run_parallel(work, chunks, args.jobs):
@@ -145,11 +457,30 @@ def main():
     cov = rep.coverage
     cov["disagreements_checked"] = rep.queries.get("sat", 0)
     cov["exhaustive"] = True
-    cov["functions_encoded"] = ["tree.flatten -> flatten_symbols (inside/outside), expand_connectors (flat equations -> z3 linear constraints)"]
-    cov["bounds"] = ("quick: every ordered sequence of <=3 connect clauses over {a.p, b.p, P, Q} (k=m=1), <=2 (k=m=2), <=1 over 3 components x 2 connectors; "
-                     "thorough: <=4 clauses over 4 connectors, <=3 over 5, <=3 with k=m=2, <=2 over 8 connectors; all variable values unbounded reals")
+    cov["functions_encoded"] = ["tree.flatten -> flatten_symbols (inside/outside per class level, array dimensions), expand_connectors (flat scalar and array equations -> z3 linear constraints)"]
+    cov["bounds"] = (
+        "quick: (1) scalar graphs: every ordered sequence of <=3 connect clauses over {a.p, b.p, P, Q} (k=m=1), <=2 (k=m=2), <=1 over 3 components x 2 connectors; "
+        "(2) the <=2-clause sequences over those 4 connectors that contain a self-connection connect(c, c); "
+        "(3) 7 naming schemes in which flat names are string prefixes/suffixes of each other (ports p/p2 in both declaration orders, top connector inl vs components inlet/inletb, "
+        "tops P/P2, suffix pairs p/qp a/ba, a_p next to a.p, all at once) and 4 member-name schemes (f/f2, f2/f, v/v2+i/i2, e/e_flow/e_flow2), each with every <=1-clause sequence over "
+        "8 connectors and every unordered 2-clause sequence over 5 of them; "
+        "(4) array-valued connector members (Real v[2]; flow Real i[2]) x every <=2-clause sequence over 4 connectors; "
+        "(5) every non-empty <=2-clause scalar graph lifted to N=2 element-wise connected copies (a[N], b[N] components, P[N], Q[N] connectors) in 5 renderings "
+        "(copy-major, clause-major, right-hand side shifted to the next copy, whole-array clauses connect(a.p, P), scalar P/Q joining all copies), 1-clause graphs also with N=1, N=3, "
+        "k=m=2 and with an array-valued flow member; (6) every non-empty <=2-clause sequence over the elements {n[1].p, n[2].p, t[1], t[2], x.p}, <=1 clause over s[2,2] and u, "
+        "and the 2-D array fully connected by 4 clauses; (7) connect clauses inside component classes (Comp with connectors p, n and sub-component s.q: <=1 inner clause x "
+        "(<=1 ordered or 2 unordered outer clauses over {a.p, a.n, b.p, P}), 2 unordered inner clauses x <=1 outer), the same with Comp a[2] and with an array connector Pin p[2] "
+        "inside Comp; (8) 11 hand-listed clause forms: whole-array clause mixed with element clauses, for-equation, slice, parameter subscript. "
+        "thorough: (1) <=4 clauses over 4 connectors, <=3 over 5, <=3 with k=m=2, <=2 over 8 connectors; (2) self-connections in <=3 clauses; (3) ordered 2-clause sequences over 6 connectors "
+        "per scheme; (4) <=3 clauses, also mixed scalar/array members with k=m=2; (5) <=3-clause graphs x 6 renderings (also descending copy order), 2-clause graphs with N=3; "
+        "(6) <=2 ordered and 3 unordered clauses over 6 array elements, <=2 over the 2-D array; (7) <=2 inner x <=2 outer ordered clauses, <=2 outer over Comp a[2], <=2 inner over Pin p[2]. "
+        "All variable values unbounded reals in every family")
     rep.assumptions += ["components carry no equations of their own, so the flat equations are exactly the connection equations",
-                        "'every flow variable that appears in no connection is zero' is applied to inside and outside connectors alike, as the statement says"]
+                        "'every flow variable that appears in no connection is zero' is applied to inside and outside connectors alike, as the statement says; "
+                        "a connector that is connected only by a clause of its own class (as an outside connector) counts as appearing in a connection",
+                        "a connect clause between whole arrays, a for-equation, a slice or a parameter subscript stands for the element-wise scalar clauses (Modelica spec 9.1)",
+                        "a violation is filed under the class-level case 'array-partial:unconnected-element-flow-not-zero' only when z3 proves "
+                        "(flat equations and the missing flow = 0 of never-connected elements of partly connected arrays) <=> reference; otherwise under the program's own id"]
     if not cov.get("programs"):
         rep.harness_error("nothing compared")
     return rep.finish()
